@@ -107,7 +107,11 @@ class Field:
         """
         tilt = self.tilt + other.tilt
 
-        if self.data.ndim == 0 and other.data.ndim == 0:
+        if self.data.size == 0 or other.data.size == 0:
+            # an empty Field (the product of Fields with nothing in common)
+            # has nothing in common with any other Field either
+            data, offset = [], None
+        elif self.data.ndim == 0 and other.data.ndim == 0:
             data, offset = self._mul_scalar(other)
         else:
             # Note that _mul_array is optimized to also handle scalar * array
@@ -253,6 +257,10 @@ def insert(field, out, intensity=False, weight=1):
     #if indexing not in ('xy', 'ij'):
     #    raise ValueError("Valid values for `indexing` are 'xy' and 'ij'")
 
+    if field.data.size == 0:
+        # an empty Field has nothing to insert
+        return out
+
     if field.data.ndim == 0 or (field.shape == out.shape and np.array_equal(field.offset, [0, 0])):
         # a constant (0-d) field covers all of out, as does a field of the
         # same shape with no offset
@@ -341,6 +349,12 @@ def _merge(fields):
     Merge fields into a new Field regardless of whether the supplied fields 
     overlap in space
     """
+    if any(f.data.size == 0 for f in fields):
+        # empty Fields contribute nothing
+        fields = [f for f in fields if f.data.size > 0] or fields[:1]
+        if len(fields) == 1:
+            return fields[0]
+
     if not np.all([f.pixelscale == fields[0].pixelscale for f in fields]):
         raise ValueError("Can't merge: pixelscales must be equal")
 
@@ -436,7 +450,8 @@ def reduce(fields):
         List of :class:`~lentil.field.Field` objects
     
     """
-    fields = _reduce(fields)
+    # empty Fields contribute nothing
+    fields = _reduce([f for f in fields if f.data.size > 0])
 
     out = []
 
